@@ -3,8 +3,18 @@ use super::*;
 const WINDOW: [u8; 12] = [0, 1, 7, 8, 27, 28, 36, 55, 56, 57, 62, 63];
 const PROMOS: [Option<Piece>; 7] = [None, Some(Piece::Pawn), Some(Piece::Knight), Some(Piece::Bishop), Some(Piece::Rook), Some(Piece::Queen), Some(Piece::King)];
 
-fn family() -> Vec<u64> {
+fn family(thorough: bool) -> Vec<u64> {
     let mut v = vec![0u64, !0u64, 0xFF000000000000FFu64, !0xFF000000000000FFu64];
+    if thorough {
+        // every set of three squares as well
+        for a in 0..64 {
+            for b in a + 1..64 {
+                for c in b + 1..64 {
+                    v.push((1u64 << a) | (1u64 << b) | (1u64 << c));
+                }
+            }
+        }
+    }
     for a in 0..64 {
         v.push(1u64 << a);
         for b in a + 1..64 {
@@ -127,8 +137,8 @@ pub fn check_batch(piece: Piece, from: Square, to: u64, all_queries: bool, sink:
 
 pub fn run(run: &mut Run) {
     let thorough = !run.quick();
-    let fam = family();
-    run.rule = "6 pieces x 64 origins x destination family {empty, full, ranks 1+8 and complement, all sets of <=2 squares, all 4096 subsets of a 12-square window mixing first-rank, eighth-rank and inner squares}; per batch: len, is_empty, iteration as a multiset, iter.len/size_hint after every next, and has() for the 3x64x7 moves from {origin, origin^1, origin^56} (thorough: all 64x64x7 moves when |to| <= 2). non-trivial = pawn batch containing a promotion-rank destination".into();
+    let fam = family(thorough);
+    run.rule = "6 pieces x 64 origins x destination family {empty, full, ranks 1+8 and complement, all sets of <=2 squares (thorough: <=3), all 4096 subsets of a 12-square window mixing first-rank, eighth-rank and inner squares}; per batch: len, is_empty, iteration as a multiset, iter.len/size_hint after every next, and has() for the 3x64x7 moves from {origin, origin^1, origin^56} (thorough: all 64x64x7 moves when |to| <= 2). non-trivial = pawn batch containing a promotion-rank destination".into();
     run.assume("2^64 destination sets are not enumerated: the family contains every set of at most two squares and every subset of a 12-square window; PieceMoves operations act per destination square");
     let t0 = Instant::now();
     let t: Tally = (0..6 * 64usize)
